@@ -434,7 +434,76 @@ func c18Call(caller, rcv []byte, args ...[]byte) *vmcommon.ContractCallInput {
 	}
 }
 
+// c18TwoShards: a coordinator with two shards (the last byte of an address decides), executing shard 0
+type c18TwoShards struct{}
+
+func (c18TwoShards) NumberOfShards() uint32 { return 2 }
+func (c18TwoShards) ComputeId(a []byte) uint32 {
+	if len(a) == 0 {
+		return 0
+	}
+	return uint32(a[len(a)-1] % 2)
+}
+func (c18TwoShards) SelfId() uint32                        { return 0 }
+func (c18TwoShards) SameShard(a, b []byte) bool            { return c18TwoShards{}.ComputeId(a) == c18TwoShards{}.ComputeId(b) }
+func (c18TwoShards) CommunicationIdentifier(uint32) string { return "0_1" }
+func (c18TwoShards) IsInterfaceNil() bool                  { return false }
+
+// c18ProbeDNS: "each name bound to the behaviour of that name" for SetUserName in a sharded configuration: every CONFIGURED DNS address is
+// accepted as caller on the shard of the destination account, wherever the DNS contract itself lives; any other caller is refused
+func c18ProbeDNS(c *ctx) {
+	dnsHere := append(bytes.Repeat([]byte{0xd1}, 31), 2)  // lives on shard 0 (the executing shard)
+	dnsThere := append(bytes.Repeat([]byte{0xd2}, 31), 3) // lives on shard 1
+	stranger := append(bytes.Repeat([]byte{0xd3}, 31), 3)
+	w := &c18World{notifier: &c18Notifier{}, accounts: c18NewAccounts()}
+	f, err := builtInFunctions.NewBuiltInFunctionsFactory(builtInFunctions.ArgsCreateBuiltInFunctionContainer{
+		GasMap: c18GasMap(10), MapDNSAddresses: map[string]struct{}{string(dnsHere): {}, string(dnsThere): {}}, EnableUserNameChange: true,
+		Marshalizer: c18Marshalizer{}, Accounts: w.accounts, ShardCoordinator: c18TwoShards{}, EpochNotifier: w.notifier,
+	})
+	if err != nil {
+		c18Fail(c, "monitor", "factory-error", err.Error(), nil)
+		return
+	}
+	cont, err := f.CreateBuiltInFunctionContainer()
+	if err != nil {
+		c18Fail(c, "monitor", "factory-error", err.Error(), nil)
+		return
+	}
+	fn, err := cont.Get("SetUserName")
+	if err != nil {
+		c18Fail(c, "monitor", "registry-behaviour", "Get(SetUserName): "+err.Error(), nil)
+		return
+	}
+	for i, p := range []struct {
+		who    string
+		caller []byte
+		ok     bool
+	}{{"DNS address of the executing shard", dnsHere, true}, {"DNS address living on another shard", dnsThere, true}, {"an address that is not a DNS address", stranger, false}} {
+		user := append(bytes.Repeat([]byte{0x21 + byte(i)}, 31), 4) // shard 0
+		dst := c18NewAccount(user)
+		in := c18Call(p.caller, user, []byte("name.elrond"))
+		in.GasProvided = 1 << 30
+		var callErr error
+		func() {
+			defer func() {
+				if r := recover(); r != nil {
+					callErr = fmt.Errorf("panic: %v", r)
+				}
+			}()
+			_, callErr = fn.ProcessBuiltinFunction(nil, dst, in)
+		}()
+		c.note("dns-probe/"+p.who, true)
+		c.count("registry/dns-probe")
+		got := callErr == nil
+		if got != p.ok {
+			c18Fail(c, "monitor", "registry-behaviour-SetUserName", fmt.Sprintf("SetUserName in a 2-shard configuration, caller = %s: accepted = %v (error %v), expected %v", p.who, got, callErr, p.ok),
+				map[string]string{"probe": "SetUserName/" + p.who})
+		}
+	}
+}
+
 func c18Probes(c *ctx) {
+	c18ProbeDNS(c)
 	w, err := c18Build(c18GasMap(10), map[string]struct{}{}, false, 0, false)
 	if err != nil {
 		c18Fail(c, "monitor", "factory-error", err.Error(), nil)
